@@ -34,7 +34,7 @@ sys.path.insert(0, os.path.join(PROOT, 'mirsym'))
 from engine import *
 import re
 names = re.findall(r'^\s+(\w+) = \|', open(os.path.join(PHERE, 'probe.rs')).read(), re.M)
-flt = sys.argv[1] if len(sys.argv) > 1 else ''
+flt = next((x for x in sys.argv[1:] if not x.startswith('--')), '')
 names = [n for n in names if flt in n]
 INPUTS = ['', 'a', 'ab', 'ab,cd , e', '  <A --> B>. %1.0;0.9% ', '12', ' -7 ', '0.5', 'héllo wörld', 'aXbXc,', '1,2,3', 'aab,,b', '(<a>))', '3.75', '-0', 'ff', 'true', 'a\tb\n c', '词 语,x']
 reqs = [(n, s) for n in names for s in INPUTS]
@@ -62,4 +62,32 @@ for n, l in bad.items():
     print('MISMATCH', n)
     for s, g, w in l[:2]: print('    input=%r\n      interp=%r\n      native=%r' % (s, g, w))
 for n, u in unsup.items(): print('UNSUPPORTED', n, '::', u)
+if '--sym' in sys.argv:
+    # symbolic mode: 1-2 symbolic chars (ASCII block + one CJK block) inside fixed contexts; every path's witness is replayed natively
+    sys.path.insert(0, PHERE)
+    import explore
+    TEMPLATES = [[None], [None, None], [ord('a'), None, ord(','), None], [None, ord('1'), None], [ord(' '), None, ord('5')]]
+    BLOCKS = [[0x20, 0x7e], [0x4e00, 0x4e20], [0x9, 0xd]]
+    tasks = [{'name': n, 'template': t, 'blocks': BLOCKS} for n in names for t in TEMPLATES]
+    t0 = time.time(); tot = 0; badp = {}; inc = {}
+    pool = explore.make_pool()
+    for n in names:
+        ps = [x for x in tasks if x['name'] == n]
+        r = explore.explore('stdprobe_sym', 'probe_path', ps, pool=pool, max_paths=3000, budget_s=120)
+        for i_ in r.inconclusive: inc.setdefault(n, i_.get('why', '?')[:200])
+        reqs2 = r.extra
+        if reqs2:
+            p2 = subprocess.run([os.path.join(SCR, 'target', 'debug', 'examples', 'probe')], input=''.join('%s\t%s\n' % (n, ''.join(map(chr, q['input'])).encode('utf-8', 'surrogatepass').hex()) for q in reqs2), capture_output=True, text=True)
+            for q, l in zip(reqs2, p2.stdout.splitlines()):
+                st, _, h = l.partition('\t'); want = (st, bytes.fromhex(h).decode() if st == 'ok' else '')
+                got = (q['st'], ''.join(map(chr, q['out'])))
+                tot += 1
+                if got != want: badp.setdefault(n, []).append((''.join(map(chr, q['input'])), got, want))
+        if not r.exhaustive: inc.setdefault(n, 'not exhaustive within budget (%d paths)' % r.paths)
+    pool.terminate()
+    print('SYMBOLIC: paths replayed natively', tot, 'probes-with-mismatch', len(badp), 'probes-inconclusive', len(inc), 'in %.0fs' % (time.time() - t0))
+    for n, l in badp.items():
+        print('SYM-MISMATCH', n, len(l))
+        for s_, g, w in l[:2]: print('    input=%r\n      interp=%r\n      native=%r' % (s_, g, w))
+    for n, u in inc.items(): print('SYM-INCONCLUSIVE', n, '::', u)
 if '--keep' not in sys.argv: shutil.rmtree(SCR, ignore_errors=True)
